@@ -152,7 +152,7 @@ fn check_program(rep: &mut Rep, rng: &mut Rng, src: &str, vars: &[gen::VarDecl],
         let revived = match de {
             Ok(p) => p,
             Err(e) => {
-                let class = if e.contains("null") || e.contains("floating") { "non-finite-double" } else if e.contains("variant") { "variant-index" } else { "other" };
+                let class = if e.contains("recursion limit") { "recursion-limit" } else if e.contains("null") || e.contains("floating") { "non-finite-double" } else if e.contains("variant") { "variant-index" } else { "other" };
                 rep.viol(
                     &format!("{}|deserialize-fails|{}", fmt, class),
                     &format!("`{}` serialises but cannot be read back: {}", mon::clip(src, 200), mon::clip(&e, 200)),
@@ -274,6 +274,21 @@ pub fn run(ctx: &mut Ctx) {
             let src = shape.replace('@', &lit);
             check_program(rep, rng, &src, &vars, "constant-values");
         }
+    });
+
+    // ---- deep and wide programs: whatever the compiler accepts must survive the round trip --------------------
+    const DEPTHS: [usize; 20] = [1, 2, 4, 8, 12, 16, 20, 24, 28, 32, 36, 40, 44, 46, 47, 48, 64, 100, 300, 1000];
+    let ladders = crate::props::c01::LADDERS;
+    ctx.stage("deep-programs", (ladders.len() * DEPTHS.len()) as u64, false, |idx, rng, rep| {
+        let (name, f) = ladders[idx as usize % ladders.len()];
+        let depth = DEPTHS[idx as usize / ladders.len()];
+        let src = f(depth);
+        if mon::compile(&src).is_ok() {
+            rep.count(&format!("deep_accepted/{}", name));
+            rep.count("deep_programs_accepted");
+        }
+        let vars = vec![gen::VarDecl { name: "x".into(), ty: gen::Ty::Int }];
+        check_program(rep, rng, &src, &vars, "deep-programs");
     });
 
     let n = ctx.n(60_000, 1_000_000);
